@@ -469,9 +469,9 @@ def lean_ident(name):
     return 'l_' + s
 
 
-def emit_lean(loops, flags):
-    out = ['/- generated by tools/translate/prange.py from the working tree; do not edit -/',
-           'import SkNet.Model.ParFor', 'namespace SkNet.Generated.Prange', 'open SkNet.ParFor', '']
+def emit_lean(loops, flags, namespace='SkNet.Generated.Prange', header=True):
+    out = (['/- generated by tools/translate/prange.py from the working tree; do not edit -/',
+            'import SkNet.Model.ParFor'] if header else []) + ['namespace ' + namespace, 'open SkNet.ParFor', '']
     for l in loops:
         out.append('/-- %s line %d -/' % (l['name'], l['line']))
         out.append('def %s : Loop :=' % lean_ident(l['name']))
@@ -482,7 +482,7 @@ def emit_lean(loops, flags):
     out.append('/-- setup.py passes -fopenmp to the compiler / to the linker (default platform branch) -/')
     out.append('def ompCompile : Bool := %s' % ('true' if flags.get('compile') else 'false'))
     out.append('def ompLink : Bool := %s' % ('true' if flags.get('link') else 'false'))
-    out.append('end SkNet.Generated.Prange')
+    out.append('end ' + namespace)
     return '\n'.join(out) + '\n'
 
 
